@@ -39,6 +39,7 @@ def run(ctx):
     ctx.prove("C11_formula")
     if ctx.tier == "thorough":
         ctx.coqchk("C11")
+        ctx.coqchk("C11_formula")
     rng = ctx.rng
     cases = []
     mats = list(SHIPPED)
